@@ -1,7 +1,8 @@
 #!/bin/bash
 # usage: tools/verify_seed.sh <seed-dir> <crate> <features> [demo-file]
-# Confirms a seeded change in a scratch worktree (/tmp/wt_verify): applies patch, demo must FAIL, test suite of the
-# workspace must still pass (3 known always-fail tests tolerated), then reverts: demo must PASS.
+# Confirms a seeded change in a scratch worktree (/tmp/wt_verify): demo must PASS on the pinned tree, then with the patch
+# applied the demo must FAIL and the workspace test suite must still pass (the 3 known always-fail tests tolerated; tests
+# that fail under machine load are re-run alone at low parallelism and must pass there); then the tree is reverted.
 set -u
 SD=$(realpath $1); CRATE=$2; FEAT=$3; DEMO=${4:-demo.rs}
 WT=/tmp/wt_verify
@@ -13,6 +14,13 @@ echo "### demo WITHOUT change"; cargo test -p $CRATE --offline --features "$FEAT
 git apply $SD/patch.diff || { echo "PATCH DOES NOT APPLY"; exit 3; }
 echo "### demo WITH change"; cargo test -p $CRATE --offline --features "$FEAT" --test vx_seed_demo 2>&1 | grep -E "^test result|^test .* (ok|FAILED)|error(\[|:)" | head -20
 rm $CRATE/tests/vx_seed_demo.rs
-echo "### suite WITH change"; cargo nextest run --workspace --no-fail-fast --test-threads 8 --offline 2>&1 | grep -E "^\s+Summary|^\s+FAIL" | sort | uniq | head -30
+echo "### suite WITH change"; cargo nextest run --workspace --no-fail-fast --test-threads 8 --offline > $WT/_suite.log 2>&1
+grep -E "^\s+Summary|^\s+FAIL" $WT/_suite.log | sort | uniq | head -40
+EXTRA=$(grep -E "^\s+FAIL" $WT/_suite.log | awk '{print $NF}' | sort -u | grep -v -E "^(link_file_cant_read|symcc::solver::test::parse_error_test|symcc::solver_pool::test::test_failed_solver_discarded)$")
+if [ -n "$EXTRA" ]; then
+  echo "### re-run of load-sensitive failures alone (2 threads)"
+  cargo nextest run --workspace --no-fail-fast --test-threads 2 --offline $EXTRA 2>&1 | grep -E "^\s+Summary|^\s+FAIL" | sort | uniq | head -20
+fi
+rm -f $WT/_suite.log
 git checkout -- . && git clean -fdq -e target
 echo "### done"
